@@ -398,6 +398,10 @@ pub fn run(ctx: &Ctx) -> Result<Run, String> {
         st.count("secret_x_output_scans", scanned as u64);
         st.findings_from(fs);
     });
+    // a long run on one thread: ids and secrets drawn at random must never share material (a
+    // credential id that contains part of a PRF secret hands that secret back)
+    let lr = super::inst::long_run_sweep(ctx.tier.pick(96, 400), "long-run");
+    stats.merge(lr);
     if stats.findings.contains_key("harness/kind=scanner-negative-control-failed") {
         return Err("C06 scanner negative control failed".into());
     }
@@ -406,7 +410,7 @@ pub fn run(ctx: &Ctx) -> Result<Run, String> {
     }
     let mut run = Run::from_stats(
         "exploration",
-        "(a) product of operation {client register/authenticate, CTAP2 makeCredential/getAssertion, U2F register/authenticate, getInfo, error paths} x hmac-secret configuration(3) x evaluation at creation x PRF request {none, one, two inputs} x user verified x client-data mode x counter x configured credential-id length {16, 32, 48, 64} for registrations; (b) a credential created by the library itself (CTAP2 level, and through the client with pre-hashed PRF inputs) asserted with every salt of the constants dictionary (each string literal of the library sources as SHA-256, zero-padded, and under the client's salt derivation; every 7th case with a second salt) x hmac-secret configuration x evaluation at creation x user verified; after each ceremony every secret in the store (private scalars, both PRF secrets of every credential, new ones included) is searched in every returned value's Debug / pretty Debug / JSON / CBOR / raw encodings in the Debug of each stored Passkey and in the output of public_key_der_from_cose_key applied to each stored key, as raw bytes, hex (both cases), decimal list, base64 and base64url in all three bit alignments. Non-trivial = distinct ceremony that returned a success value",
+        "(c) a run of 96 (thorough 400) registrations on one thread, mixed credential-id lengths and PRF configurations: no 8-byte window of a returned credential id may occur in any stored secret or earlier id; (a) product of operation {client register/authenticate, CTAP2 makeCredential/getAssertion, U2F register/authenticate, getInfo, error paths} x hmac-secret configuration(3) x evaluation at creation x PRF request {none, one, two inputs} x user verified x client-data mode x counter x configured credential-id length {16, 32, 48, 64} for registrations; (b) a credential created by the library itself (CTAP2 level, and through the client with pre-hashed PRF inputs) asserted with every salt of the constants dictionary (each string literal of the library sources as SHA-256, zero-padded, and under the client's salt derivation; every 7th case with a second salt) x hmac-secret configuration x evaluation at creation x user verified; after each ceremony every secret in the store (private scalars, both PRF secrets of every credential, new ones included) is searched in every returned value's Debug / pretty Debug / JSON / CBOR / raw encodings in the Debug of each stored Passkey and in the output of public_key_der_from_cose_key applied to each stored key, as raw bytes, hex (both cases), decimal list, base64 and base64url in all three bit alignments. Non-trivial = distinct ceremony that returned a success value",
         true,
         stats,
     );
@@ -415,6 +419,9 @@ pub fn run(ctx: &Ctx) -> Result<Run, String> {
 }
 
 pub fn replay(_ctx: &Ctx, case: &Value) -> Result<Vec<Finding>, String> {
+    if let Some(fs) = super::inst::long_run_replay(case, "long-run") {
+        return Ok(fs);
+    }
     let c: Case = serde_json::from_value(case.clone()).map_err(|e| format!("bad C06 case: {e}"))?;
     Ok(eval(&c).0)
 }
